@@ -34,6 +34,10 @@ func (p *Prover) Init(curve *math.Curve, msgLen int, thresholdPK []byte, parties
 		return err
 	}
 
+	if len(tpk.PublicKeys) != len(parties) {
+		return fmt.Errorf("threshold public key holds %d public keys but there are %d parties", len(tpk.PublicKeys), len(parties))
+	}
+
 	p.publicKeysOfParties = make(map[uint16]PK)
 
 	for i, party := range parties {
